@@ -172,6 +172,19 @@ def gen_case(ck):
     rng = ck.rng
     for _ in range(300):
         gd = graphs.gen_perm_def(rng)
+        if rng.random() < 0.07:
+            # permutations of 257..520 points moving a few positions: stored layers hold labels >= 256 (>= one byte)
+            n = rng.choice([257, 300, 300, 520])
+            support = rng.sample(range(n), rng.randint(3, 5))
+            gens = []
+            for _ in range(rng.randint(2, 3)):
+                img = list(support)
+                rng.shuffle(img)
+                p = list(range(n))
+                for a_, b_ in zip(support, img):
+                    p[a_] = b_
+                gens.append(p)
+            gd = graphs.GDef("perm", gens, list(range(n)), tag="wide-labels")
         layers = gd.brute_layers(cap=500)
         if layers is None or len(layers) < 2:
             continue
@@ -179,6 +192,10 @@ def gen_case(ck):
         ecc = len(layers) - 1
         cfg = graphs.gen_cfg(rng, gd)
         cfg["random_seed"] = rng.choice([0, 0, 1, 5, -3, 2**40])
+        if gd.tag == "wide-labels":
+            cfg["batch_size"], cfg["hash_chunk_size"] = max(cfg["batch_size"], 50), max(cfg["hash_chunk_size"], 100)
+            if rng.random() < 0.8:
+                cfg["bit_encoding_width"] = None  # the bit-by-bit encoder costs ~20 ms per call at this size
         opts = {
             "return_all_hashes": rng.random() < 0.7,
             "return_all_edges": rng.random() < 0.4,
